@@ -384,6 +384,22 @@ def strided_view(x, how):
     return v
 
 
+def clone_routes(obj):
+    """[(how, copy of obj)]: `copy.deepcopy` and a pickle round trip.  A copy of a library object is a library object
+    with the same configuration: everything a property says about "any computer / bank / processor" holds for it.  Code
+    that keeps NumPy views of its own buffers, or caches derived values outside the pickled state, breaks here and
+    nowhere else.  A route that raises is reported as (how, exception)."""
+    import copy
+    import pickle
+    out = []
+    for how, fn in (("deepcopy", copy.deepcopy), ("pickle", lambda o: pickle.loads(pickle.dumps(o)))):
+        try:
+            out.append((how, fn(obj)))
+        except Exception as e:  # noqa
+            out.append((how, e))
+    return out
+
+
 # ---- floats over the line protocol ---------------------------------------------------------
 import struct
 
